@@ -557,6 +557,9 @@ func (e *Env) evalCall(x *SExpr) Value {
 		need(1)
 		v := arg(0)
 		return Value{T: errorType, L: []*Term{UF("unwrap.tag", SInt, v.L[0], v.L[1]), UF("unwrap.val", SInt, v.L[0], v.L[1])}}
+	case "nilerr":
+		need(0)
+		return Value{T: errorType, L: []*Term{Int(0), Int(0)}}
 	case "errtext":
 		need(1)
 		v := arg(0)
@@ -577,6 +580,15 @@ func (e *Env) evalCall(x *SExpr) Value {
 			as = append(as, e.eval(a).L...)
 		}
 		return specInt(UF("u."+x.Args[0].Str, SInt, as...))
+	case "ufs": // uninterpreted string-valued function
+		var as []*Term
+		for _, a := range x.Args[1:] {
+			as = append(as, e.eval(a).L...)
+		}
+		return Value{T: tString, L: []*Term{UF("u."+x.Args[0].Str, SInt, as...)}}
+	case "cstr": // the C string starting at byte memory cell (a, i)
+		need(2)
+		return Value{T: tString, L: []*Term{UF("cstr", SInt, e.intTerm(x.Args[0]), e.intTerm(x.Args[1]))}}
 	case "ufb":
 		var as []*Term
 		for _, a := range x.Args[1:] {
